@@ -496,4 +496,17 @@ theorem sim_step_conv {w w' : World} {s : ASt} {e : CEv} {o : Outs} (h : Abs w s
     obtain ⟨rfl, rfl⟩ := hw1
     exact ⟨s', rfl, ha⟩
 
+/-- `Reach w s`: some history of S4U calls leads the abstract machine from its initial state to `s` and the
+implementation model from `w0` to `w`, with the same answers -/
+def Reach (w : World) (s : ASt) : Prop :=
+  ∃ es o, arun ASt.init es = .ok (s, o) ∧ w0.run (es.map CEv.toEv) = .ok (w, o)
+
+theorem reach_abs {w : World} {s : ASt} (hr : Reach w s) : Abs w s ∧ AInv s := by
+  obtain ⟨es, o, h1, h2⟩ := hr
+  obtain ⟨w1, hw1, ha, hi⟩ := sim_run es abs_init ainv_init h1
+  rw [h2] at hw1
+  simp only [Except.ok.injEq, Prod.mk.injEq] at hw1
+  rw [hw1.1]
+  exact ⟨ha, hi⟩
+
 end SgVerif.C06
